@@ -209,7 +209,7 @@ def cases():
     for mk, dk in (("bs", "european"), ("bs", "european_binary"), ("ww", "european"), ("ww", "european_binary")):
         for cost_pos in (False, True):
             cs.append(Case("hedger/%s/%s/cost=%s" % (mk, dk, "pos" if cost_pos else "zero"), hedger_case(mk, dk, 3, cost_pos), xmode=True,
-                           encodes=enc, bounds="N=1 T=3, symbolic positive path, symbolic dt, sigma, strike", families=fam, timeout=120,
+                           encodes=enc, bounds="N=1 T=3, symbolic positive path, symbolic dt, sigma, strike", families=fam, timeout=120 if not cost_pos else 400,
                            tier="quick" if not cost_pos else "thorough", batch=False))
     cs.append(Case("hedger/bs/american_binary/cost=zero", hedger_case("bs", "american_binary", 3, False), xmode=True, tier="thorough",
                    encodes=enc, bounds="N=1 T=3", families=fam, timeout=300, batch=False))
